@@ -626,6 +626,31 @@ class Intrinsics:
         f = z3.Function(f'ghost_{name}', *([z3.IntSort()] * (len(zs) + 1)))
         return f(*zs)
 
+    def s_abstract_int(self, P, name, native_fn, *args):
+        return self.s_abstract(P, name, native_fn, *args, _sort=z3.IntSort())
+
+    def s_abstract(self, P, name, native_fn, *args, _sort=None):
+        """uninterpreted Bool predicate (C20: behaviour of an arbitrary Context); objects count by identity"""
+        zs = []
+        sig = []
+        for a in args:
+            if isinstance(a, SObj):
+                zs.append(z3.Int('obj#' + (a.name or hex(id(a)))))
+                sig.append('o')
+            elif is_boollike(a):
+                zs.append(as_z3bool(a))
+                sig.append('b')
+            elif is_intlike(a):
+                zs.append(as_z3int(a))
+                sig.append('i')
+            elif a is None:
+                zs.append(z3.IntVal(-1))
+                sig.append('n')
+            else:
+                raise InterpError(f'abstract({name}): unsupported argument {a!r}')
+        f = z3.Function(f'abs_{name}_{"".join(sig)}', *([z.sort() for z in zs] + [_sort or z3.BoolSort()]))
+        return f(*zs)
+
     def s_implies(self, P, a, b):
         a, b = P.truthy(a), P.truthy(b)
         if a is False or b is True:
